@@ -364,6 +364,8 @@ class Emit:
         self.returns = 0
         self.draws = 0         # generator calls seen in the statement being translated
         self.edge_alias = []   # (iterator name, layer expr) -> target variable
+        self.binders = []      # Lean conditions of the enclosing loops, outermost first: (variable, condition text)
+        self.accesses = []     # (binders snapshot, [(index text, dimension text)]) for every container access
 
     # type of an expression: 'D' double, 'N' natural, 'B' bool
     def ty(self, e):
@@ -425,6 +427,7 @@ class Emit:
         """M(i,k) / w(k,a) / w(k,l,a)"""
         kind = self.fn.fields.get(name) or self.fn.params.get(name)
         a = " ".join(self.atom(x) for x in args)
+        self.record_access(name, args)
         if name in self.fn.fields:
             base = "s." + name
         else:
@@ -556,6 +559,22 @@ class Emit:
             return self.atom(g[2][0])
         raise Lost("graph argument is not A(layer)")
 
+    def record_access(self, name, args):
+        """container access `name(args)`: with the dimensions given in `fn.dims` (per number of indices), note that
+        every index must be below its dimension, under the conditions of the enclosing loops"""
+        dims = getattr(self.fn, "dims", {}).get(name)
+        if dims is None:
+            return
+        d = dims.get(len(args)) if isinstance(dims, dict) else dims
+        if d is None or len(d) != len(args):
+            raise Lost("%s accessed with %d indices" % (name, len(args)))
+        for x in args:
+            if self.ty(x) != "N":
+                raise Lost("index of %s is not an integer expression" % name)
+            if "s." in self.ex(x):
+                return    # index held in a translated local (the writers' `index`): not covered
+        self.accesses.append((list(self.binders), [(self.ex(x), dim) for x, dim in zip(args, d)]))
+
     def sty(self):
         """the Lean type of the state: `Struct α`, or plain `Struct` for a function translated at `Float` only"""
         return self.fn.struct + ("" if getattr(self.fn, "monomorphic", False) else " α")
@@ -577,6 +596,7 @@ class Emit:
                 raise Lost("write to %s(...), which is not a translated container" % n)
             args = lhs[2]
             a = " ".join(self.atom(x) for x in args)
+            self.record_access(n, args)
             if kind == "M2" and len(args) == 2:
                 return self.set_field(n, "setAt2 s.%s %s %s" % (n, a, self.paren(val_text)))
             if kind == "M23" and len(args) in (2, 3):
@@ -766,7 +786,27 @@ class Emit:
         saved_path, self.path = self.path, path
         self.counter.append(0)
         self.idx.append(v)
+        if head.startswith("forRange "):
+            cond = "%s < %s" % (v, head[len("forRange "):])
+        elif head.startswith("forFrom "):
+            lo, hi = head[len("forFrom "):].rsplit(" ", 1) if not head.endswith(")") else (None, None)
+            if lo is None:
+                # both bounds may be parenthesised expressions: split at the top-level blank
+                depth, cut = 0, None
+                t = head[len("forFrom "):]
+                for n, ch in enumerate(t):
+                    depth += ch == "("
+                    depth -= ch == ")"
+                    if ch == " " and depth == 0:
+                        cut = n
+                        break
+                lo, hi = t[:cut], t[cut + 1:]
+            cond = "%s ≤ %s ∧ %s < %s" % (lo, v, v, hi)
+        else:
+            cond = "%s ∈ %s" % (v, head[len("forList "):])
+        self.binders.append((v, cond))
         blines = self.stmts(body, 1)
+        self.binders.pop()
         self.idx.pop()
         self.counter.pop()
         self.path = saved_path
@@ -836,4 +876,20 @@ def translate_loops(fn, loop_text, ind=1):
         stmts.append(p.stmt())
     em = Emit(fn)
     top = em.stmts(stmts, ind)
+    fn.accesses = em.accesses
     return em.defs, top
+
+
+def safety_prop(fn):
+    """Lean text of the proposition `every recorded container access is inside the container`"""
+    seen, conj = set(), []
+    for binders, idx in fn.accesses:
+        body = " ∧ ".join("%s < %s" % (i if re.fullmatch(r"[A-Za-z_0-9]+", i) else "(" + i + ")", d) for i, d in idx)
+        t = ""
+        for v, cond in binders:
+            t += "∀ %s, %s → " % (v, cond)
+        t = "(" + t + "(" + body + "))"
+        if t not in seen:
+            seen.add(t)
+            conj.append(t)
+    return conj
